@@ -22,7 +22,7 @@ import (
 	"sync/atomic"
 	"time"
 
-	"cedarverif/internal/wire"
+	"cedarverif/internal/mempipe"
 
 	"github.com/bbockelm/cedar/message"
 	"github.com/bbockelm/cedar/security"
@@ -226,7 +226,7 @@ type world struct {
 }
 
 type liveConn struct {
-	cli, srv  *wire.C05Conn
+	cli, srv  *mempipe.C05Conn
 	st        *stream.Stream
 	done      chan error
 	returned  bool
@@ -335,7 +335,7 @@ func clientAddrFor(user string) string {
 
 func (w *world) open(user, kind, via string) *liveConn {
 	w.closeConn()
-	cli, srv := wire.C05Pipe(clientAddrFor(user), serverAddr)
+	cli, srv := mempipe.C05Pipe(clientAddrFor(user), serverAddr)
 	lc := &liveConn{cli: cli, srv: srv, done: make(chan error, 1), kind: kind, via: via, connEvIdx: -1}
 	lc.st = stream.NewStream(cli)
 	lc.st.SetPeerAddr(serverSinful)
@@ -543,14 +543,14 @@ func Run(sc *Scenario, id int) *Result {
 
 // afterCommand records the server's answer to a command and compares it with
 // the intended design's expectation (a difference is only counted).
-func (w *world) afterCommand(lc *liveConn, cmd string, disp *Step, probe bool) (outcome, *handlerObs) {
+func (w *world) afterCommand(lc *liveConn, via, cmd string, disp *Step, probe bool) (outcome, *handlerObs) {
 	w.res.RealCalls++
 	out, o := w.await(lc)
 	expRun := disp != nil && (disp.Exp != nil) && (string(disp.Exp) == `"run"` || string(disp.Exp) == `"runraw"`)
 	switch out {
 	case outHandler:
 		w.res.Handlers++
-		w.res.ByVia[lc.via]++
+		w.res.ByVia[via]++
 		name := cmdName[o.cmd]
 		if o.cmd != o.cCommand {
 			w.res.Broken = append(w.res.Broken, fmt.Sprintf("handler registered for %d invoked with Conn.Command=%d", o.cmd, o.cCommand))
@@ -567,14 +567,14 @@ func (w *world) afterCommand(lc *liveConn, cmd string, disp *Step, probe bool) (
 		w.ev(Event{E: "Handler", Cmd: name, Reg: o.reg, EncReal: o.isEnc, AuthFlag: o.authFlag,
 			EncFlag: o.encFlag, SrvUser: o.user, Resumed: o.resumed, Kind: lc.kind, SessKind: lc.sessKind})
 		if disp != nil && !expRun {
-			w.dev("dispatch %s via %s client %s: intended design refuses (lacks %s), real server ran the handler", cmd, lc.via, lc.kind, disp.Lacks)
+			w.dev("dispatch %s via %s client %s: intended design refuses (lacks %s), real server ran the handler", cmd, via, lc.kind, disp.Lacks)
 		}
 	case outClosed:
 		lc.refused = true
 		w.res.Refusals++
 		w.ev(Event{E: "Closed", Cmd: cmd, Kind: lc.kind})
 		if disp != nil && expRun && !probe {
-			w.dev("dispatch %s via %s client %s: intended design runs the handler, real server refused", cmd, lc.via, lc.kind)
+			w.dev("dispatch %s via %s client %s: intended design runs the handler, real server refused", cmd, via, lc.kind)
 		}
 	case outNoClose:
 		lc.refused = true
@@ -619,7 +619,7 @@ func (w *world) connect(s Step, disp *Step) {
 		// server does not wait for it): give the server a moment to show it
 		out, o = w.awaitAfterClientError(lc, s.Cmd, disp)
 	} else {
-		out, o = w.afterCommand(lc, s.Cmd, disp, false)
+		out, o = w.afterCommand(lc, lc.via, s.Cmd, disp, false)
 	}
 	ev := &w.res.Trace.Ev[idx]
 	ev.Ok = err == nil || out == outHandler
@@ -733,7 +733,7 @@ func (w *world) resume(s Step, disp *Step) {
 	if err != nil {
 		out, o = w.awaitAfterClientError(lc, s.Cmd, disp)
 	} else {
-		out, o = w.afterCommand(lc, s.Cmd, disp, false)
+		out, o = w.afterCommand(lc, lc.via, s.Cmd, disp, false)
 	}
 	ev := &w.res.Trace.Ev[idx]
 	ev.Ok = err == nil || out == outHandler
@@ -769,7 +769,7 @@ func (w *world) raw(s Step, disp *Step) {
 		return
 	}
 	w.ev(Event{E: "Raw", Cmd: s.Cmd, Kind: "raw"})
-	w.afterCommand(lc, s.Cmd, disp, false)
+	w.afterCommand(lc, lc.via, s.Cmd, disp, false)
 }
 
 func (w *world) followOn(cmd string, disp *Step, probe bool) {
@@ -801,7 +801,7 @@ func (w *world) followOn(cmd string, disp *Step, probe bool) {
 		}
 		return
 	}
-	w.afterCommand(lc, cmd, disp, probe)
+	w.afterCommand(lc, "followon", cmd, disp, probe)
 }
 
 // probeAfterRefusal: after anything was refused on a connection the client
